@@ -341,3 +341,78 @@ func main() {
 	println("FIELD", t.A, t.B, z_second(s), o.ListItem(1).LongLong())
 }
 '''}
+
+
+# A program whose main package does not use Python itself; Python is used by two other packages
+# that need neither the Go runtime nor link arguments:
+#   pa - through a module function only (vmod.f2)
+#   pb - through conversions (py.List of narrow values) and a module variable (vmod.answer) only
+# It is built three times against one package cache: cold, unchanged (everything cached), and with
+# only main.go edited (pa, pb, vb come from the cache).  Every build must initialise the interpreter
+# before the first use and every run must print the expected lines.
+def gen_cache_program(version):
+    a, b, x, bits = [(3, 4, -7, 0x3fc00000), (84, 36, -32768, 0xc2c80000)][version]
+    files = {"vb/vb.go": '''package vb
+
+import (
+	_ "unsafe"
+
+	"github.com/goplus/lib/py"
+)
+
+const LLGoPackage = "py.vmod"
+
+//go:linkname F2 py.f2
+func F2(a, b *py.Object) *py.Object
+
+//go:linkname Answer py.answer
+var Answer *py.Object
+''', "pa/pa.go": '''package pa
+
+import (
+	"github.com/goplus/lib/c"
+	"github.com/goplus/lib/py"
+	"verifprog/vb"
+)
+
+// Call2 calls vmod.f2(a, b); the result is the tuple (b, a).
+func Call2(a, b int64) *py.Object {
+	return vb.F2(py.LongLong(c.LongLong(a)), py.LongLong(c.LongLong(b)))
+}
+''', "pb/pb.go": '''package pb
+
+import (
+	"github.com/goplus/lib/py"
+	"verifprog/vb"
+)
+
+func Conv(x int16, y float32) *py.Object { return py.List(x, y) }
+
+func Answer() int64 { return int64(vb.Answer.LongLong()) }
+''', "main.go": '''package main
+
+import (
+	"unsafe"
+
+	"verifprog/pa"
+	"verifprog/pb"
+)
+
+func f32f(b uint32) float32 { return *(*float32)(unsafe.Pointer(&b)) }
+func f64b(f float64) uint64 { return *(*uint64)(unsafe.Pointer(&f)) }
+
+func main() {
+	println("MAIN v%d")
+	r := pa.Call2(%d, %d)
+	println("RET", r.TupleLen(), int64(r.TupleItem(0).LongLong()), int64(r.TupleItem(1).LongLong()))
+	l := pb.Conv(%d, f32f(0x%x))
+	println("CONV", int64(l.ListItem(0).LongLong()), f64b(l.ListItem(1).Float64()))
+	println("ANS", pb.Answer())
+}
+''' % (version, a, b, x, bits)}
+    import struct
+    wide = struct.unpack("<Q", struct.pack("<d", struct.unpack("<f", struct.pack("<I", bits))[0]))[0]
+    expect = ["IMPORT vmod", "MAIN v%d" % version, "CALL vmod.f2 T(I%d I%d)" % (a, b), "RET 2 %d %d" % (b, a),
+              "CONV %d %d" % (x, wide), "ANS 42"]
+    govals = ["VInt 16 true %d" % (x % 65536), "VF32 %d" % bits]
+    return files, expect, govals, (x, wide)
